@@ -1635,6 +1635,38 @@ func (g *gen) kwGuards(fn string) []string {
 	return out
 }
 
+// kwRound prints the two loop headers and every statement of the round body of Wrap / Unwrap
+// (`for j … { for i … { body } }`): the hand-written Lean wrap/unwrap mirror exactly these.
+func (g *gen) kwRound(fn string) []string {
+	c := g.kw.fnIn(fn, "keywrap.go")
+	var outer *ast.ForStmt
+	for _, s := range c.stmts() {
+		if fs, ok := s.(*ast.ForStmt); ok && len(fs.Body.List) == 1 {
+			if _, ok := fs.Body.List[0].(*ast.ForStmt); ok {
+				if outer != nil {
+					failf(fs.Pos(), "%s: more than one nested round loop", fn)
+				}
+				outer = fs
+			}
+		}
+	}
+	if outer == nil {
+		failf(c.fd.Pos(), "%s: no `for j { for i { … } }` round loop found", fn)
+	}
+	inner := outer.Body.List[0].(*ast.ForStmt)
+	hdr := func(f *ast.ForStmt) string {
+		if f.Init == nil || f.Cond == nil || f.Post == nil {
+			failf(f.Pos(), "%s: loop header is not `for init; cond; post`", fn)
+		}
+		return "for " + show(f.Init) + "; " + show(f.Cond) + "; " + show(f.Post)
+	}
+	out := []string{hdr(outer), hdr(inner)}
+	for _, s := range inner.Body.List {
+		out = append(out, strings.Join(strings.Fields(show(s)), " "))
+	}
+	return out
+}
+
 func (g *gen) kwDefaultIV() []string {
 	f := g.kw.file("keywrap.go")
 	var out []string
@@ -1861,6 +1893,9 @@ func (g *gen) generate() string {
 	g.pf("def aeskwWrapGuards : List String := %s\n", qlist(g.kwGuards("Wrap")))
 	g.pf("def aeskwUnwrapGuards : List String := %s\n", qlist(g.kwGuards("Unwrap")))
 	g.pf("def aeskwDefaultIV : List Nat := [%s]\n", strings.Join(g.kwDefaultIV(), ", "))
+	g.pf("/-- aeskw: loop headers and statements of the round body of Wrap / Unwrap, rendered. -/\n")
+	g.pf("def aeskwWrapRound : List String := %s\n", qlist(g.kwRound("Wrap")))
+	g.pf("def aeskwUnwrapRound : List String := %s\n", qlist(g.kwRound("Unwrap")))
 
 	g.pf("\n")
 	seen := map[string]bool{}
